@@ -65,6 +65,22 @@ func newSharedPacketConn(u muxedPacketConn, refs *atomic.Int32) *sharedPacketCon
 	}
 }
 
+// retainShared takes a temporary reference for a mux that is about to hand out
+// another wrapper of a connection that already had wrappers. It fails once the
+// last wrapper has been released: that wrapper's Close is closing (or has
+// closed) the underlying connection, which must not be handed out again.
+func retainShared(refs *atomic.Int32) bool {
+	for {
+		n := refs.Load()
+		if n <= 0 {
+			return false
+		}
+		if refs.CompareAndSwap(n, n+1) {
+			return true
+		}
+	}
+}
+
 // readContext returns the context to use for a single read, arming the
 // configured read deadline if one is set. cancel is non-nil when the caller
 // must cancel after the read completes.
